@@ -13,54 +13,7 @@ use std::mem;
 
 verus! {
 
-//@include _shared/handler_prelude_core.rs
-//@include _shared/copy_iter.rs
-opaque!(Channel);
-opaque!(BusListener);
-
-// ServiceInfo: opaque Copy value (core/src/service_info.rs); the registry only stores it and hands it out
-#[verifier::external_body]
-#[derive(Clone, Copy)]
-pub struct ServiceInfo { _p: () }
-impl ServiceInfo {
-    #[verifier::external_body]
-    pub fn new(version: u32) -> (r: Self) { unimplemented!() }
-    #[verifier::external_body]
-    pub fn set_subscribe_all(self, subscribe_all: bool) -> (r: Self) { unimplemented!() }
-}
-opaque!(DeserializeError);
-impl SerializedValue {
-    // decoding of the payload is the codec's business (C01/C07); here only success/failure matters
-    #[verifier::external_body]
-    pub fn deserialize<T>(&self) -> (r: Result<T, DeserializeError>) { unimplemented!() }
-}
-
-// Cookies are random version-4 UUIDs (core/src/ids/*_cookie.rs: Uuid::new_v4). No specification: that a new cookie differs
-// from every live one is an ASSUMPTION stated at the creation sites below (see `assume(...)` in create_object/create_service).
-impl ObjectCookie {
-    #[verifier::external_body]
-    pub fn new_v4() -> (r: Self) { unimplemented!() }
-}
-impl ServiceCookie {
-    #[verifier::external_body]
-    pub fn new_v4() -> (r: Self) { unimplemented!() }
-}
-
-// ---- ids and messages (real items) ------------------------------------------------------------------------
-//@item core/src/ids/object_id.rs struct ObjectId attr=derive(Clone,Copy)
-//@item core/src/ids/service_id.rs struct ServiceId attr=derive(Clone,Copy)
-impl ObjectId {
-    //@fn core/src/ids/object_id.rs ObjectId::new
-        ensures r.uuid == uuid, r.cookie == cookie,
-    //@end
-}
-impl ServiceId {
-    //@fn core/src/ids/service_id.rs ServiceId::new
-        ensures r.object_id == object_id, r.uuid == uuid, r.cookie == cookie,
-    //@end
-}
-
-//@item core/src/message/call_function_reply.rs enum CallFunctionResult
+//@include _shared/registry_preamble_a.rs
 //@item core/src/message/create_object.rs struct CreateObject
 //@item core/src/message/create_object_reply.rs enum CreateObjectResult
 //@item core/src/message/create_object_reply.rs struct CreateObjectReply
@@ -80,320 +33,9 @@ impl IntoMessage for DestroyObjectReply { open spec fn min_minor() -> u32 { 0 } 
 impl IntoMessage for CreateServiceReply { open spec fn min_minor() -> u32 { 0 } }
 impl IntoMessage for DestroyServiceReply { open spec fn min_minor() -> u32 { 0 } }
 
-// connection `c` is among the references `h`
-pub open spec fn visited(h: Seq<&ConnectionId>, c: ConnectionId) -> bool {
-    exists|j: int| 0 <= j < h.len() && *h[j] == c
-}
-
-// ---- callee structures: real structs, methods ASSUMED with the contracts verified in their leaf units ---------
-//@item broker/src/broker/state.rs struct State
-impl State {
-    //@include _shared/state_specs.rs
-    //@fn-from broker_state broker/src/broker/state.rs State::push_remove_conn
-    //@fn-from broker_state broker/src/broker/state.rs State::push_remove_function_call
-    //@fn-from broker_state broker/src/broker/state.rs State::push_services_destroyed
-    //@fn-from broker_state broker/src/broker/state.rs State::push_create_object
-    //@fn-from broker_state broker/src/broker/state.rs State::push_destroy_object
-    //@fn-from broker_state broker/src/broker/state.rs State::push_create_service
-    //@fn-from broker_state broker/src/broker/state.rs State::push_destroy_service
-}
-
-//@item broker/src/serial_map.rs struct SerialMap
-impl<T> SerialMap<T> {
-    //@fn-from broker_serial_map broker/src/serial_map.rs SerialMap::remove
-}
-
-//@item broker/src/broker/object.rs struct Object
-impl Object {
-    //@fn-from broker_object broker/src/broker/object.rs Object::new
-    //@fn-from broker_object broker/src/broker/object.rs Object::conn_id
-    //@fn-from broker_object broker/src/broker/object.rs Object::cookie
-    //@fn-from broker_object broker/src/broker/object.rs Object::add_service
-    //@fn-from broker_object broker/src/broker/object.rs Object::remove_service
-
-    // `self.svcs.iter().copied()`: ASSUMED to enumerate the service set, each cookie once
-    //@fn broker/src/broker/object.rs Object::services nobody iter
-        ensures r.elems().no_duplicates(), r.elems().to_set() == self.svcs@,
-    //@end
-}
-
-//@item broker/src/broker/service.rs struct Service
-impl Service {
-    //@include _shared/service_specs.rs
-    //@fn-from broker_service broker/src/broker/service.rs Service::new
-    //@fn-from broker_service broker/src/broker/service.rs Service::cookie
-    //@fn-from broker_service broker/src/broker/service.rs Service::object_cookie
-
-    // set of connections subscribed to one of the service's events or to the service itself
-    spec fn is_subscriber(&self, k: ConnectionId) -> bool {
-        self.subscriptions@.contains(k) || exists|e: u32| self.subs(e).contains(k)
-    }
-
-    // `self.function_calls.iter().copied()`: ASSUMED to enumerate the set of pending serials, each once
-    //@fn broker/src/broker/service.rs Service::function_calls nobody iter
-        ensures r.elems().no_duplicates(), r.elems().to_set() == self.function_calls@,
-    //@end
-
-    // collects the per-event subscribers and the service subscribers into a HashSet and iterates it (iterator adapters:
-    // outside Verus). ASSUMED: enumerates that set of connections, each once.
-    //@fn broker/src/broker/service.rs Service::subscribed_conn_ids nobody iter
-        ensures r.elems().no_duplicates(),
-            forall|k: ConnectionId| self.is_subscriber(k) <==> visited(r.elems(), k),
-    //@end
-}
-
-//@item broker/src/broker/conn_state.rs struct ConnectionState
-impl ConnectionState {
-    //@include _shared/conn_state_specs.rs
-    //@fn-from broker_conn_state broker/src/broker/conn_state.rs ConnectionState::version
-    //@fn-from broker_conn_state broker/src/broker/conn_state.rs ConnectionState::add_object
-    //@fn-from broker_conn_state broker/src/broker/conn_state.rs ConnectionState::remove_object
-    //@fn-from broker_conn_state broker/src/broker/conn_state.rs ConnectionState::unsubscribe_all
-
-    // sending only pushes into the connection's outgoing queue (interior mutability); no broker state changes.
-    #[verifier::external_body]
-    pub(crate) fn send(&self, msg: VersionedMessage) -> (r: Result<(), ()>)
-        requires self.version.allows(msg.min_minor())
-    { unimplemented!() }
-}
-
-// ---- Broker -------------------------------------------------------------------------------------------
-//@item broker/src/broker.rs macro send
-//@item broker/src/broker.rs struct PendingFunctionCall
-//@item broker/src/broker.rs struct Broker
-
-// the InvalidService replies queued for the pending calls `order` (in that order) of a destroyed service: one per call that
-// has not been aborted (an aborted call was already answered with Aborted), addressed to the caller under its own serial
-pub closed spec fn invalid_service_replies(order: Seq<u32>, calls: Map<u32, PendingFunctionCall>)
-    -> Seq<(u32, ConnectionId, CallFunctionResult)>
-    decreases order.len()
-{
-    if order.len() == 0 {
-        Seq::empty()
-    } else {
-        let c = calls[order.last()];
-        let rest = invalid_service_replies(order.drop_last(), calls);
-        if c.aborted { rest } else { rest.push((c.caller_serial, c.caller_conn_id, CallFunctionResult::InvalidService)) }
-    }
-}
-
-// the ServiceDestroyed notifications queued for the subscribed connections `order` that are (still) connected
-pub closed spec fn service_destroyed_notes(order: Seq<&ConnectionId>, conns: Set<ConnectionId>, sc: ServiceCookie)
-    -> Seq<(ConnectionId, ServiceCookie)>
-    decreases order.len()
-{
-    if order.len() == 0 {
-        Seq::empty()
-    } else {
-        let rest = service_destroyed_notes(order.drop_last(), conns, sc);
-        if conns.contains(*order.last()) { rest.push((*order.last(), sc)) } else { rest }
-    }
-}
-
-// one step of a loop over a duplicate-free sequence `q` that enumerates the set-like predicate `p`: bookkeeping facts about
-// the visited prefix
-pub open spec fn in_rest<T>(q: Seq<T>, from: int, x: T) -> bool {
-    exists|i: int| from <= i < q.len() && q[i] == x
-}
-
-pub proof fn lemma_iter_step<T>(q: Seq<T>, idx: int)
-    requires q.no_duplicates(), 0 <= idx < q.len(),
-    ensures
-        q.take(idx + 1) == q.take(idx).push(q[idx]),
-        q.take(idx + 1).no_duplicates(),
-        !q.take(idx).contains(q[idx]),
-        forall|x: T| q.take(idx + 1).contains(x) <==> (q.take(idx).contains(x) || x == q[idx]),
-        forall|x: T| #![trigger in_rest(q, idx, x)] #![trigger in_rest(q, idx + 1, x)] in_rest(q, idx, x) <==> (x == q[idx] || in_rest(q, idx + 1, x)),
-        forall|x: T| #![trigger in_rest(q, idx, x)] in_rest(q, idx, x) ==> q.contains(x),
-{
-    let h = q.take(idx);
-    let h2 = q.take(idx + 1);
-    assert(h2 == h.push(q[idx]));
-    assert(h2.no_duplicates()) by {
-        assert forall|a: int, b: int| 0 <= a < h2.len() && 0 <= b < h2.len() && a != b implies h2[a] != h2[b] by {
-            assert(h2[a] == q[a] && h2[b] == q[b]);
-        }
-    }
-    if h.contains(q[idx]) {
-        let j = choose|j: int| 0 <= j < h.len() && h[j] == q[idx];
-        assert(q[j] == q[idx]);
-    }
-    assert forall|x: T| h2.contains(x) <==> (h.contains(x) || x == q[idx]) by {
-        if h2.contains(x) {
-            let j = choose|j: int| 0 <= j < h2.len() && h2[j] == x;
-            if j < h.len() { assert(h[j] == x); }
-        }
-        if h.contains(x) {
-            let j = choose|j: int| 0 <= j < h.len() && h[j] == x;
-            assert(h2[j] == x);
-        }
-        if x == q[idx] { assert(h2[idx] == x); }
-    }
-    assert forall|x: T| in_rest(q, idx, x) implies q.contains(x) by {
-        let i = choose|i: int| idx <= i < q.len() && q[i] == x;
-        assert(q[i] == x);
-    }
-    assert forall|x: T| #![trigger in_rest(q, idx, x)] #![trigger in_rest(q, idx + 1, x)] in_rest(q, idx, x) <==> (x == q[idx] || in_rest(q, idx + 1, x)) by {
-        if exists|i: int| idx <= i < q.len() && q[i] == x {
-            let i = choose|i: int| idx <= i < q.len() && q[i] == x;
-            if i != idx { assert(idx + 1 <= i < q.len() && q[i] == x); }
-        }
-        if x == q[idx] { assert(idx <= idx < q.len() && q[idx] == x); }
-        if exists|i: int| idx + 1 <= i < q.len() && q[i] == x {
-            let i = choose|i: int| idx + 1 <= i < q.len() && q[i] == x;
-            assert(idx <= i < q.len() && q[i] == x);
-        }
-    }
-}
-
+//@include _shared/registry_preamble_b.rs
 impl Broker {
-    #[verifier::inline]
-    spec fn calls(&self) -> Map<u32, PendingFunctionCall> {
-        self.function_calls.elems@
-    }
-
-    // table key of the service with cookie `sc`
-    spec fn skey(&self, sc: ServiceCookie) -> (ObjectUuid, ServiceUuid) {
-        (self.svc_uuids@[sc].0.uuid, self.svc_uuids@[sc].1)
-    }
-
-    // ---- registry invariant ------------------------------------------------------------------------------
-    // (O) the object tables obj_uuids (cookie -> uuid) and objs (uuid -> Object) are inverse to each other: at most one live
-    //     object per UUID (objs is a map) and per cookie
-    spec fn inv_objects(&self) -> bool {
-        &&& forall|c: ObjectCookie| #![trigger self.obj_uuids@[c]] self.obj_uuids@.contains_key(c) ==>
-                self.objs@.contains_key(self.obj_uuids@[c]) && self.objs@[self.obj_uuids@[c]].cookie == c
-        &&& forall|u: ObjectUuid| #![trigger self.objs@[u]] self.objs@.contains_key(u) ==>
-                self.obj_uuids@.contains_key(self.objs@[u].cookie) && self.obj_uuids@[self.objs@[u].cookie] == u
-    }
-
-    // (S) the service tables svc_uuids (cookie -> ids) and svcs ((object uuid, service uuid) -> Service) are inverse to each
-    //     other: at most one live service per (object, service UUID) and per cookie
-    spec fn inv_services(&self) -> bool {
-        &&& forall|sc: ServiceCookie| #![trigger self.svc_uuids@[sc]] self.svc_uuids@.contains_key(sc) ==> {
-                &&& self.svcs@.contains_key(self.skey(sc))
-                &&& self.svcs@[self.skey(sc)].cookie == sc
-                &&& self.svcs@[self.skey(sc)].object_cookie == self.svc_uuids@[sc].0.cookie
-            }
-        &&& forall|k: (ObjectUuid, ServiceUuid)| #![trigger self.svcs@[k]] self.svcs@.contains_key(k) ==>
-                self.svc_uuids@.contains_key(self.svcs@[k].cookie) && self.skey(self.svcs@[k].cookie) == k
-    }
-
-    // (OS) an object lists exactly the live services registered under it (while the object exists)
-    spec fn inv_object_services(&self) -> bool {
-        &&& forall|u: ObjectUuid, sc: ServiceCookie| #![trigger self.objs@[u].svcs@.contains(sc)]
-                self.objs@.contains_key(u) && self.objs@[u].svcs@.contains(sc) ==>
-                    self.svc_uuids@.contains_key(sc) && self.svc_uuids@[sc].0.uuid == u
-        &&& forall|sc: ServiceCookie| #![trigger self.svc_uuids@[sc]]
-                self.svc_uuids@.contains_key(sc) && self.objs@.contains_key(self.svc_uuids@[sc].0.uuid) ==> {
-                    &&& self.objs@[self.svc_uuids@[sc].0.uuid].svcs@.contains(sc)
-                    &&& self.objs@[self.svc_uuids@[sc].0.uuid].cookie == self.svc_uuids@[sc].0.cookie
-                }
-    }
-
-    // (OWN) a connection lists exactly the objects it owns
-    spec fn inv_ownership(&self) -> bool {
-        &&& forall|k: ConnectionId, c: ObjectCookie| #![trigger self.conns@[k].objects@.contains(c)]
-                self.conns@.contains_key(k) && self.conns@[k].objects@.contains(c) ==>
-                    self.obj_uuids@.contains_key(c) && self.objs@[self.obj_uuids@[c]].conn_id == k
-        &&& forall|u: ObjectUuid| #![trigger self.objs@[u]]
-                self.objs@.contains_key(u) && self.conns@.contains_key(self.objs@[u].conn_id) ==>
-                    self.conns@[self.objs@[u].conn_id].objects@.contains(self.objs@[u].cookie)
-    }
-
-    // (CALLS) pending calls and the per-service sets of pending serials describe the same relation
-    spec fn inv_calls(&self) -> bool {
-        &&& forall|s: u32| #![trigger self.calls()[s]] self.calls().contains_key(s) ==> {
-                &&& self.svcs@.contains_key((self.calls()[s].callee_obj, self.calls()[s].callee_svc))
-                &&& self.svcs@[(self.calls()[s].callee_obj, self.calls()[s].callee_svc)].function_calls@.contains(s)
-            }
-        &&& forall|k: (ObjectUuid, ServiceUuid), s: u32| #![trigger self.svcs@[k].function_calls@.contains(s)]
-                self.svcs@.contains_key(k) && self.svcs@[k].function_calls@.contains(s) ==>
-                    self.calls().contains_key(s) && self.calls()[s].callee_obj == k.0 && self.calls()[s].callee_svc == k.1
-    }
-
-    // (SUBS) subscriptions are mirrored: what a live service records about a connected subscriber, that connection records
-    //        about the service; and every service satisfies its own representation invariant
-    spec fn inv_subs(&self) -> bool {
-        &&& forall|k: (ObjectUuid, ServiceUuid)| #![trigger self.svcs@[k]] self.svcs@.contains_key(k) ==> self.svcs@[k].inv()
-        &&& forall|k: (ObjectUuid, ServiceUuid), e: u32, c: ConnectionId| #![trigger self.svcs@[k].subs(e).contains(c)]
-                self.svcs@.contains_key(k) && self.svcs@[k].subs(e).contains(c) && self.conns@.contains_key(c) ==>
-                    self.conns@[c].ev(self.svcs@[k].cookie).contains(e)
-        &&& forall|k: (ObjectUuid, ServiceUuid), c: ConnectionId| #![trigger self.svcs@[k].all_events@.contains(c)]
-                self.svcs@.contains_key(k) && self.svcs@[k].all_events@.contains(c) && self.conns@.contains_key(c) ==>
-                    self.conns@[c].all_events@.contains(self.svcs@[k].cookie)
-        &&& forall|k: (ObjectUuid, ServiceUuid), c: ConnectionId| #![trigger self.svcs@[k].subscriptions@.contains(c)]
-                self.svcs@.contains_key(k) && self.svcs@[k].subscriptions@.contains(c) && self.conns@.contains_key(c) ==>
-                    self.conns@[c].subscriptions@.contains(self.svcs@[k].cookie)
-    }
-
-    // every subscriber recorded by a live service is a connected client (between two requests)
-    spec fn subscribers_connected(&self) -> bool {
-        &&& forall|k: (ObjectUuid, ServiceUuid), e: u32, c: ConnectionId| #![trigger self.svcs@[k].subs(e).contains(c)]
-                self.svcs@.contains_key(k) && self.svcs@[k].subs(e).contains(c) ==> self.conns@.contains_key(c)
-        &&& forall|k: (ObjectUuid, ServiceUuid), c: ConnectionId| #![trigger self.svcs@[k].all_events@.contains(c)]
-                self.svcs@.contains_key(k) && self.svcs@[k].all_events@.contains(c) ==> self.conns@.contains_key(c)
-        &&& forall|k: (ObjectUuid, ServiceUuid), c: ConnectionId| #![trigger self.svcs@[k].subscriptions@.contains(c)]
-                self.svcs@.contains_key(k) && self.svcs@[k].subscriptions@.contains(c) ==> self.conns@.contains_key(c)
-    }
-
-    // every connection's own representation invariant
-    spec fn inv_conns(&self) -> bool {
-        forall|k: ConnectionId| #![trigger self.conns@[k]] self.conns@.contains_key(k) ==> self.conns@[k].inv()
-    }
-
-    // The registry invariant in its WEAK form: services may be orphans (their object already gone) and objects may have a
-    // disconnected owner. That is the state inside remove_object / shutdown_connection.
-    spec fn reg_winv(&self) -> bool {
-        &&& self.inv_objects() &&& self.inv_services() &&& self.inv_object_services() &&& self.inv_ownership()
-        &&& self.inv_calls() &&& self.inv_conns() &&& self.inv_subs()
-    }
-
-    // service cookies whose object does not exist (any more)
-    spec fn is_orphan(&self, sc: ServiceCookie) -> bool {
-        self.svc_uuids@.contains_key(sc) && !self.objs@.contains_key(self.svc_uuids@[sc].0.uuid)
-    }
-
-    // The registry invariant between two requests: additionally no service is an orphan and every object's owner is connected.
-    spec fn reg_inv(&self) -> bool {
-        &&& self.reg_winv()
-        &&& forall|sc: ServiceCookie| #![trigger self.svc_uuids@[sc]] self.svc_uuids@.contains_key(sc) ==>
-                self.objs@.contains_key(self.svc_uuids@[sc].0.uuid)
-        &&& forall|u: ObjectUuid| #![trigger self.objs@[u]] self.objs@.contains_key(u) ==>
-                self.conns@.contains_key(self.objs@[u].conn_id)
-        &&& self.subscribers_connected()
-    }
-
-    spec fn same_rest(&self, o: &Self) -> bool {
-        &&& self.recv == o.recv &&& self.handle == o.handle
-        &&& self.channels == o.channels &&& self.bus_listeners == o.bus_listeners
-        &&& self.function_calls.next == o.function_calls.next
-    }
-
-    // the registry tables proper
-    spec fn same_registry(&self, o: &Self) -> bool {
-        &&& self.obj_uuids@ =~= o.obj_uuids@ &&& self.objs@ =~= o.objs@
-        &&& self.svc_uuids@ =~= o.svc_uuids@ &&& self.svcs@ =~= o.svcs@
-    }
-
-    // no service is an orphan
-    spec fn no_orphans(&self) -> bool {
-        forall|sc: ServiceCookie| #![trigger self.svc_uuids@[sc]] self.svc_uuids@.contains_key(sc) ==>
-            self.objs@.contains_key(self.svc_uuids@[sc].0.uuid)
-    }
-
-    // the registry restricted to everything that does not belong to object `u`: what remove_object leaves behind
-    spec fn registry_without_object(&self, o: &Self, u: ObjectUuid) -> bool {
-        &&& forall|sc: ServiceCookie| #![trigger self.svc_uuids@.contains_key(sc)] #![trigger o.svc_uuids@.contains_key(sc)]
-                (self.svc_uuids@.contains_key(sc) <==> o.svc_uuids@.contains_key(sc) && o.svc_uuids@[sc].0.uuid != u)
-                && (self.svc_uuids@.contains_key(sc) ==> self.svc_uuids@[sc] == o.svc_uuids@[sc])
-        &&& forall|k: (ObjectUuid, ServiceUuid)| #![trigger self.svcs@.contains_key(k)] #![trigger o.svcs@.contains_key(k)]
-                (self.svcs@.contains_key(k) <==> o.svcs@.contains_key(k) && k.0 != u)
-                && (self.svcs@.contains_key(k) ==> self.svcs@[k] == o.svcs@[k])
-        &&& forall|s: u32| #![trigger self.calls().contains_key(s)] #![trigger o.calls().contains_key(s)]
-                (self.calls().contains_key(s) <==> o.calls().contains_key(s) && o.calls()[s].callee_obj != u)
-                && (self.calls().contains_key(s) ==> self.calls()[s] == o.calls()[s])
-    }
+    //@include _shared/registry_inv.rs
 
     // ---- remove_service -------------------------------------------------------------------------------------
     //@fn broker/src/broker.rs Broker::remove_service attr=verifier::loop_isolation(false)
